@@ -1,0 +1,113 @@
+//go:build verif
+
+// Round 4, area E: contracts for QueryAuthd / QueryAnyAuthd (C11), checked by nsqvc. Comment-only file.
+// Assumed library contracts and the r4EQ* ghosts (what the query string was given): lib/trusted/r4E.spec.
+// The HTTP round trip (http_api.Client.GETV1 / POSTV1) is the engine's decode model: it writes arbitrary values into the
+// exported fields of the State allocated by THIS call and returns an arbitrary error.
+
+package auth
+
+// One element of an accepted answer: only the two known permissions, topic and channel patterns compile.
+//@ pred r4EPermsKnown(v Authorization) := forall j int :: {v.Permissions[j]} 0 <= j && j < len(v.Permissions) ==> v.Permissions[j] == "subscribe" || v.Permissions[j] == "publish"
+//@ pred r4EChansCompile(v Authorization) := forall j int :: {v.Channels[j]} 0 <= j && j < len(v.Channels) ==> r4EReOK(v.Channels[j])
+//@ pred r4EAuthzOK(v Authorization) := r4EPermsKnown(v) && r4EReOK(v.Topic) && r4EChansCompile(v)
+
+// Record of the QueryAuthd calls: how many, how many answered without error, and result + arguments of the most recent one.
+//@ ghost r4EAuthdQueries int
+//@ ghost r4EAuthdOKs int
+//@ ghost r4EAuthdState *State
+//@ ghost r4EAuthdErr error
+//@ ghost r4EAuthdServer string
+//@ ghost r4EAuthdRemoteIP string
+//@ ghost r4EAuthdTLS bool
+//@ ghost r4EAuthdCN string
+//@ ghost r4EAuthdSecret string
+//@ ghost r4EAuthdTLSConf *tls.Config
+//@ ghost r4EAuthdConnTO int
+//@ ghost r4EAuthdReqTO int
+//@ ghost r4EAuthdMethod string
+//@ ghostgroup r4EAuthdQueries, r4EAuthdOKs, r4EAuthdState, r4EAuthdErr, r4EAuthdServer, r4EAuthdRemoteIP, r4EAuthdTLS, r4EAuthdCN, r4EAuthdSecret, r4EAuthdTLSConf, r4EAuthdConnTO, r4EAuthdReqTO, r4EAuthdMethod
+
+//@ func QueryAuthd(authd string, remoteIP string, tlsEnabled bool, commonName string, authSecret string, clientTLSConfig *tls.Config, connectTimeout time.Duration, requestTimeout time.Duration, httpRequestMethod string) (*State, error)
+//@   props C11
+//@   ensures[state-iff-no-error] (result0 != nil) <==> (result1 == nil)
+//@   ensures[answer-of-this-query] result0 != nil ==> fresh(result0)
+//@   ensures[ttl-positive] result0 != nil ==> result0.TTL > 0
+//@   ensures[expiry-never-late] result0 != nil ==> unixNano(result0.Expires) <= unixNano(lastNow) + result0.TTL * 1000000000
+//@   ensures[expiry-exact] result0 != nil && result0.TTL <= 9223372036 ==> unixNano(result0.Expires) == unixNano(lastNow) + result0.TTL * 1000000000
+//@   ensures[params-as-given] r4EQSets == old(r4EQSets) + 4 && r4EQRemoteIP == remoteIP && r4EQSecret == authSecret && r4EQCommonName == commonName && r4EQTLS == (tlsEnabled ? "true" : "false")
+//@   ensures[client-params-as-given] r4EHCCalls == old(r4EHCCalls) + 1 && r4EHCTLS == clientTLSConfig && r4EHCConnTO == connectTimeout && r4EHCReqTO == requestTimeout
+//@   modifies lastNow, r4EQSets, r4EHCCalls, r4EAuthdQueries
+//   the record of this query, for QueryAnyAuthd and clientV2.QueryAuthd
+//@   onreturn r4EAuthdQueries := r4EAuthdQueries + 1
+//@   onreturn r4EAuthdOKs := r4EAuthdOKs + (result1 == nil ? 1 : 0)
+//@   onreturn r4EAuthdState := result0
+//@   onreturn r4EAuthdErr := result1
+//@   onreturn r4EAuthdServer := authd
+//@   onreturn r4EAuthdRemoteIP := remoteIP
+//@   onreturn r4EAuthdTLS := tlsEnabled
+//@   onreturn r4EAuthdCN := commonName
+//@   onreturn r4EAuthdSecret := authSecret
+//@   onreturn r4EAuthdTLSConf := clientTLSConfig
+//@   onreturn r4EAuthdConnTO := connectTimeout
+//@   onreturn r4EAuthdReqTO := requestTimeout
+//@   onreturn r4EAuthdMethod := httpRequestMethod
+//@   ensures[answer-validated] result0 != nil ==> forall i int :: {result0.Authorizations[i]} 0 <= i && i < len(result0.Authorizations) ==> r4EAuthzOK(result0.Authorizations[i])
+//@   loop 0
+//@     invariant[validated-so-far] forall k int :: {authState.Authorizations[k]} 0 <= k && k <= rangeindex && k < len(authState.Authorizations) ==> r4EAuthzOK(authState.Authorizations[k])
+//@   loop 1
+//@     invariant[perms-so-far] forall j int :: {auth.Permissions[j]} 0 <= j && j <= rangeindex && j < len(auth.Permissions) ==> auth.Permissions[j] == "subscribe" || auth.Permissions[j] == "publish"
+//@   loop 2
+//@     invariant[chans-so-far] forall j int :: {auth.Channels[j]} 0 <= j && j <= rangeindex && j < len(auth.Channels) ==> r4EReOK(auth.Channels[j])
+
+// Record of the QueryAnyAuthd calls: how many, result + arguments of the most recent one.
+//@ ghost r4EAnyAuthdCalls int
+//@ ghost r4EAnyAuthdState *State
+//@ ghost r4EAnyAuthdErr error
+//@ ghost r4EAnyAuthdList []string
+//@ ghost r4EAnyAuthdRemoteIP string
+//@ ghost r4EAnyAuthdTLS bool
+//@ ghost r4EAnyAuthdCN string
+//@ ghost r4EAnyAuthdSecret string
+//@ ghost r4EAnyAuthdTLSConf *tls.Config
+//@ ghost r4EAnyAuthdConnTO int
+//@ ghost r4EAnyAuthdReqTO int
+//@ ghost r4EAnyAuthdMethod string
+//@ ghostgroup r4EAnyAuthdCalls, r4EAnyAuthdState, r4EAnyAuthdErr, r4EAnyAuthdList, r4EAnyAuthdRemoteIP, r4EAnyAuthdTLS, r4EAnyAuthdCN, r4EAnyAuthdSecret, r4EAnyAuthdTLSConf, r4EAnyAuthdConnTO, r4EAnyAuthdReqTO, r4EAnyAuthdMethod
+
+// The parameters of the most recent QueryAuthd are the ones given.
+//@ pred r4ELastQueryAsGiven(remoteIP string, tlsEnabled bool, commonName string, authSecret string, clientTLSConfig *tls.Config, connectTimeout int, requestTimeout int, httpRequestMethod string) :=
+//@      r4EAuthdRemoteIP == remoteIP && r4EAuthdTLS == tlsEnabled && r4EAuthdCN == commonName && r4EAuthdSecret == authSecret && r4EAuthdTLSConf == clientTLSConfig &&
+//@      r4EAuthdConnTO == connectTimeout && r4EAuthdReqTO == requestTimeout && r4EAuthdMethod == httpRequestMethod
+
+// QueryAnyAuthd: the servers are asked one after the other (starting at a random position); the FIRST one that answers without error
+// wins and nothing is asked after it; if every server fails the result is an error and no state.
+//@ func QueryAnyAuthd(authd []string, remoteIP string, tlsEnabled bool, commonName string, authSecret string, clientTLSConfig *tls.Config, connectTimeout time.Duration, requestTimeout time.Duration, httpRequestMethod string) (*State, error)
+//@   props C11
+//@   ensures[state-iff-no-error] len(authd) > 0 ==> ((result0 != nil) <==> (result1 == nil))
+//@   ensures[no-server-no-state] len(authd) == 0 ==> result0 == nil && result1 == nil && r4EAuthdQueries == old(r4EAuthdQueries)
+//@   ensures[first-answer-wins] result0 != nil ==> r4EAuthdQueries > old(r4EAuthdQueries) && result0 == r4EAuthdState && r4EAuthdErr == nil && r4EAuthdOKs == old(r4EAuthdOKs) + 1
+//@   ensures[error-means-all-failed] result0 == nil ==> r4EAuthdOKs == old(r4EAuthdOKs) && r4EAuthdQueries == old(r4EAuthdQueries) + len(authd)
+//@   ensures[at-most-one-round] r4EAuthdQueries <= old(r4EAuthdQueries) + len(authd)
+//@   ensures[params-as-given] r4EAuthdQueries > old(r4EAuthdQueries) ==> r4ELastQueryAsGiven(remoteIP, tlsEnabled, commonName, authSecret, clientTLSConfig, connectTimeout, requestTimeout, httpRequestMethod)
+//@   ensures[answer-of-this-call] result0 != nil ==> fresh(result0) && result0.TTL > 0 && unixNano(result0.Expires) <= unixNano(lastNow) + result0.TTL * 1000000000 &&
+//@        (result0.TTL <= 9223372036 ==> unixNano(result0.Expires) == unixNano(lastNow) + result0.TTL * 1000000000)
+//@   ensures[answer-validated] result0 != nil ==> forall i int :: {result0.Authorizations[i]} 0 <= i && i < len(result0.Authorizations) ==> r4EAuthzOK(result0.Authorizations[i])
+//@   modifies lastNow, r4EQSets, r4EHCCalls, r4EAuthdQueries, r4EAnyAuthdCalls
+//   the record of this call, for clientV2.QueryAuthd
+//@   onreturn r4EAnyAuthdCalls := r4EAnyAuthdCalls + 1
+//@   onreturn r4EAnyAuthdState := result0
+//@   onreturn r4EAnyAuthdErr := result1
+//@   onreturn r4EAnyAuthdList := authd
+//@   onreturn r4EAnyAuthdRemoteIP := remoteIP
+//@   onreturn r4EAnyAuthdTLS := tlsEnabled
+//@   onreturn r4EAnyAuthdCN := commonName
+//@   onreturn r4EAnyAuthdSecret := authSecret
+//@   onreturn r4EAnyAuthdTLSConf := clientTLSConfig
+//@   onreturn r4EAnyAuthdConnTO := connectTimeout
+//@   onreturn r4EAnyAuthdReqTO := requestTimeout
+//@   onreturn r4EAnyAuthdMethod := httpRequestMethod
+//@   loop 0
+//@     invariant[one-query-per-round] 0 <= i && i <= n && n == len(authd) && r4EAuthdQueries == old(r4EAuthdQueries) + i && r4EAuthdOKs == old(r4EAuthdOKs)
+//@     invariant[error-kept] (i > 0 ==> retErr != nil) && (i == 0 ==> retErr == nil)
+//@     invariant[params-as-given] i > 0 ==> r4ELastQueryAsGiven(remoteIP, tlsEnabled, commonName, authSecret, clientTLSConfig, connectTimeout, requestTimeout, httpRequestMethod)
